@@ -19,6 +19,8 @@ RulesT = List(Tup(Nat, List(Tup(Nat, Bool))))
 SCC = CheckFn("scc", "Model.SCC", "scc_check", Tup(GraphT, List(List(Nat))))
 NTG = CheckFn("ntgraph", "Model.SCC", "ntg_check", Tup(List(Nat), RulesT, GraphT))
 CHECKFNS = [SCC, NTG]
+SPO = CheckFn("sporder", "Model.SCCOrder", "sp_order_check", Tup(List(Nat), RulesT, List(List(Nat)), List(Nat)))
+CHECKFNS.append(SPO)     # stream "hist" (harness/props/_c19_hist.py)
 ASSUMPTIONS = [
     "dict keys are canonicalised to naturals; key type (int/str/tuple/EdgeLabel) is varied by the generator but not modelled",
     "graphs are closed (distinct keys, every successor is a key): on other inputs fggs.utils.scc raises KeyError; the check function returns verdict 2 for them and the theorems assume closed g = true",
@@ -457,6 +459,10 @@ def run(tier, seed):
                                     corr="C19_nonterminal_graph_edges / corr:ntgraph", failing_input_found=(c == 1),
                                     call="fggs.utils.nonterminal_graph(hrg)"))
     hd = len({repr(v[1]) for v in hvals if len(v[1]) >= 2})
+    # stream "hist": histories of queries and in-place edits on the same FGG object (harness/props/_c19_hist.py)
+    from harness.props import _c19_hist
+    hist_viol, hist = _c19_hist.run_stream(tier, seed, SCC, NTG, SPO)
+    violations.extend(hist_viol)
     cov = dict(evaluations=len(vals) + len(hvals), distinct_nontrivial=distinct + hd,
                rule="scc: every labelled digraph with <= %d vertices (self-loops, canonical insertion order; exhaustive: %d graphs) + random digraphs with shuffled vertex and successor insertion orders and 4 key types; non-trivial = >= 3 vertices and >= 1 edge, distinct by adjacency structure. nonterminal_graph: random HRGs (gen.random_hrg), every second one with a history (a nonterminal edge added to a right-hand side and removed again, which leaves its label in that graph's label table); non-trivial = >= 2 rules" % (exh, n_exh),
                exhaustive_part="all digraphs on <= %d vertices" % exh,
@@ -470,6 +476,10 @@ def run(tier, seed):
     cov["tied_by_translation"] = TIED_BY_TRANSLATION
     cov["tied_by_correspondence_only"] = TIED_BY_CORRESPONDENCE_ONLY
     violations.extend(tie_viol)
+    cov["evaluations"] += hist["evaluations"]; cov["distinct_nontrivial"] += hist["distinct_nontrivial"]
+    cov["kernel_reevaluated"] += hist["kernel_reevaluated"]
+    cov["history_stream"] = hist
+    cov["rule"] += _c19_hist_rule()
     if tier == "thorough":
         # independent re-check of the compiled development with coqchk (several minutes)
         rc, out = sh(["timeout", "1500", "coqchk", "-silent", "-o", "-R", os.path.join(COQDIR, "theories"), "Fggs", "Fggs.Props.C19"], cwd=COQDIR, timeout=1600)
@@ -489,6 +499,9 @@ def replay(path):
         print("translator tie:", res["status"], res.get("broken", ""))
         print(res.get("detail", "")[-1500:])
         return 0 if res["status"] in ("proved", "evaluated-only") else 1
+    if c.get("history"):
+        from harness.props import _c19_hist
+        return _c19_hist.replay_case(c, SCC, NTG, SPO)
     if "graph" in c:
         g = [(v, ws) for v, ws in c["graph"]]
         out = run_scc_impl(g, 0)
@@ -504,3 +517,21 @@ MANIFEST = dict(
     note="Trusted: Coq kernel + vm_compute, extraction (ExtrOcamlBasic only) cross-checked against vm_compute, the Python harness that numbers dict keys, the statement-by-statement reading of fggs.utils.scc into Model/SCC.v (tested by the correspondence run, not proved), and, for the translation tie, the translator harness/translate/py2gallina.py with its run-time library Model/PyRT.v and its INTERFACE table (the HRG accessors are NOT translated: tied by correspondence only). Regenerated on every run: Generated/SCC_gen.v; re-checked on every run: GeneratedProofs/SCC_gen_refines.v, GeneratedProofs/C19_gen.v. The theorems assume closed graphs (every successor is a key), which is what nonterminal_graph produces and outside of which the Python code raises KeyError.",
     technique="Coq proof (model + theorems) + model/implementation correspondence with verified-spec oracle + model regenerated from the source by a translator and proved to refine the hand model on every run",
     design_ref="DESIGN.md section 6, C19")
+
+def _c19_hist_rule():
+    return (". sum_products / histories (stream hist): random FGGs (1-5 nonterminals, acyclic and recursive) built through 4 paths (add_rule; "
+            "FGG.from_hrg sharing the HRG's rule objects; .copy() of a queried object; rules added in two stages around a sum_products call), "
+            "then 1-3 rounds of in-place edits -- rhs.add_edge of a nonterminal edge (70% against the generation order), rhs.remove_edge, "
+            "relabelling an edge, rule.rhs = rule.rhs.copy(), new factor weights, and in a third of the histories add_rule -- with "
+            "nonterminal_graph, scc, sum_products (fixed-point / newton) and viterbi queried on the SAME object before the first and after every round, "
+            "and on .copy() at the end; every sixth grammar is a cycle through 2-4 nonterminals; each answer is judged against the grammar as it is "
+            "at that moment (ntg_check, scc_check, sp_order_check on the blocks handed to the per-component solver -- for viterbi the components "
+            "it visits -- and the keys of the result) and compared (values bit for bit, blocks, exceptions) with an equal grammar built afresh and never queried; non-trivial = a round that keeps the numbers of nonterminals and rules and "
+            "changes the SCC decomposition, distinct by (rules before, rules after)")
+
+ASSUMPTIONS.append("stream hist observes the order in which sum_products solves the nonterminals at SumProduct.apply_to_patterned_tensors (out_labels of the successive calls) and through the key order of the returned dict; both must agree; the components viterbi visits are observed at fggs.viterbi.FGGMultiShape(fgg, comp)")
+MANIFEST["text"] += (" The last clause of the property (every nonterminal's sum-product is computed after those it depends on and every nonterminal "
+                     "receives a value) is C19_sum_products_order: verdict 0 of sp_order_check on an observed call means every nonterminal has a value, lies in "
+                     "exactly one block, and everything its rules mention lies in the same or an earlier block, for the grammar as it is at the time of the call; "
+                     "it is checked on histories of queries and in-place edits of the same FGG object (stream hist), where a decomposition remembered from an "
+                     "earlier state of the object is rejected by the verified oracle or shows up as an exception that a freshly built equal grammar does not raise.")
